@@ -10,6 +10,7 @@ NOT PROVED: `C02_full` — that the Go code implements these transformations (an
 `c02` on the real translator's two outputs, not proved.
 -/
 import Dawgs.Proofs.C02
+import Dawgs.Proofs.C01S2Sound
 import Dawgs.Proofs.C01Pred
 import Dawgs.Generated.C02Guard
 namespace Dawgs.C02.Props
@@ -22,7 +23,7 @@ same multiset of rows (the same list under ORDER BY), or both fail. Stated for a
 translator is Go code; it stays an undischarged obligation. -/
 def C02_full (Topt Tunopt : KindMap → Cy.Query → Option (Stmt × List (String × Val))) : Prop :=
   ∀ (km : KindMap) (g : Graph) (q : Cy.Query) (so su : Stmt) (po pu : List (String × Val)),
-    C01.Proofs.GraphOK km g → Topt km q = some (so, po) → Tunopt km q = some (su, pu) →
+    C01.Proofs.GraphOK2 km g → Topt km q = some (so, po) → Tunopt km q = some (su, pu) →
     ∀ to tu, Sql.eval (encode km g) so po = .ok to → Sql.eval (encode km g) su pu = .ok tu →
       (to.rows.map valsToR).Perm (tu.rows.map valsToR)
 
@@ -325,44 +326,98 @@ theorem countWhere_ok (km : KindMap) (g : Graph) (hinj : ∀ a b i, km.id? a = s
     subst hw
     exact ⟨_, count_fast_path_hyp_kinds km g hinj ks e he⟩
 
-/-- `trOpt` / `trUnopt` answer together, and either with the SAME statement (stages S1 and S2a: the optimiser changes nothing there) or with
-the two count statements over the same frame predicate -/
-theorem trOpt_cases (km : KindMap) (q : Cy.Query) (so su : Stmt) (po pu : List (String × Val))
-    (ho : trOpt km q = some (so, po)) (hu : trUnopt km q = some (su, pu)) :
-    (C01.tr2 km q = some (so, po) ∧ su = so ∧ pu = po) ∨
+/-- two variants of the model translator answer together: either with the SAME S1 statement (the optimiser changes nothing there), or with
+the hop statement of the same S2 query in the join order each variant picked, or with the two count statements over the same frame predicate -/
+theorem trVariant_cases (fo fu : C01.S2.Query → Bool) (km : KindMap) (q : Cy.Query) (so su : Stmt) (po pu : List (String × Val))
+    (ho : trVariant fo true km q = some (so, po)) (hu : trVariant fu false km q = some (su, pu)) :
+    (C01.tr km q = some (so, po) ∧ su = so ∧ pu = po) ∨
+    (∃ s : C01.S2.Query, s.toCy = q ∧ s.trWith km (fo s) = some so ∧ s.trWith km (fu s) = some su ∧ po = [] ∧ pu = []) ∨
     (∃ ks w, ofCyCount q = some ks ∧ countWhere km ks = some w ∧ so = countOptW w ∧ su = countUnoptW w ∧ po = [] ∧ pu = []) := by
-  unfold trOpt at ho
-  unfold trUnopt at hu
-  cases h2 : C01.tr2 km q with
+  unfold trVariant at ho hu
+  unfold C01.tr2F at ho hu
+  cases h1 : C01.tr km q with
   | some r =>
-    rw [h2] at ho hu
+    rw [h1] at ho hu
     cases ho; cases hu
     exact Or.inl ⟨rfl, rfl, rfl⟩
   | none =>
-    rw [h2] at ho hu
+    rw [h1] at ho hu
     dsimp only at ho hu
-    cases hc : ofCyCount q with
-    | none => rw [hc] at ho; cases ho
-    | some ks =>
-      rw [hc] at ho hu
+    cases h2 : C01.ofCy2 q with
+    | some s =>
+      rw [h2] at ho hu
       dsimp only at ho hu
-      cases hw : countWhere km ks with
-      | none => rw [hw] at ho; cases ho
-      | some w =>
-        rw [hw] at ho hu
-        cases ho; cases hu
-        exact Or.inr ⟨ks, w, rfl, hw, rfl, rfl, rfl, rfl⟩
+      cases hso : s.trWith km (fo s) with
+      | none =>
+        rw [hso] at ho
+        simp only [Option.map_none] at ho
+        -- the hop translator declines: both variants fall through to the count fragment, which a hop query is not in
+        cases hc : ofCyCount q with
+        | none => rw [hc] at ho; cases ho
+        | some ks =>
+          exfalso
+          have hq := C01.Proofs.ofCy2_sound q s h2
+          rw [← hq] at hc
+          simp [ofCyCount, C01.S2.Query.toCy] at hc
+      | some st =>
+        rw [hso] at ho
+        simp only [Option.map_some] at ho
+        cases ho
+        cases hsu : s.trWith km (fu s) with
+        | none =>
+          exfalso
+          -- the two join orders translate together (the order only permutes the joins)
+          unfold C01.S2.Query.trWith at hso hsu
+          cases hwf : s.wf <;> simp [hwf] at hso hsu
+          cases hka : C01.S2.kindIds? km s.akinds <;> cases hkr : C01.S2.kindIds? km s.rkinds <;> cases hkb : C01.S2.kindIds? km s.bkinds <;>
+            cases hpa : C01.S2.predsE km "n0" false (s.preds .a) <;> cases hpr : C01.S2.predsE km "e0" true (s.preds .r) <;>
+            cases hpb : C01.S2.predsE km "n1" false (s.preds .b) <;> simp [hka, hkr, hkb, hpa, hpr, hpb] at hso hsu
+        | some st' =>
+          rw [hsu] at hu
+          simp only [Option.map_some] at hu
+          cases hu
+          exact Or.inr (Or.inl ⟨s, C01.Proofs.ofCy2_sound q s h2, hso, hsu, rfl, rfl⟩)
+    | none =>
+      rw [h2] at ho hu
+      dsimp only at ho hu
+      cases hc : ofCyCount q with
+      | none => rw [hc] at ho; cases ho
+      | some ks =>
+        rw [hc] at ho hu
+        dsimp only at ho hu
+        cases hw : countWhere km ks with
+        | none => rw [hw] at ho; cases ho
+        | some w =>
+          rw [hw] at ho hu
+          cases ho; cases hu
+          exact Or.inr (Or.inr ⟨ks, w, rfl, hw, rfl, rfl, rfl, rfl⟩)
 
-/-- `opt_equiv`: `C02_full` holds for the model translator pair (`trOpt`, `trUnopt`) — for every graph with `GraphOK` and every query of the
-proved fragment (C01 stages S1 and S2a, and `MATCH (n[:K…]) RETURN count(n)`), whenever both statements evaluate they return the same rows
-(here even the same table). The only optimisation that changes a statement of this fragment is the count-store fast path; that the REAL
-translator's two outputs are these statements is checked on every run (driver outcome `frag-tie`). -/
-theorem opt_equiv : C02_full trOpt trUnopt := by
+/-- `opt_equiv`: `C02_full` holds for every pair of variants of the model translator (`trVariant fo true`, `trVariant fu false`) — for every
+graph with `GraphOK2` and every query of the proved fragment (C01 stages S1 and S2, and `MATCH (n[:K…]) RETURN count(n)`), whenever both
+statements evaluate they return the same bag of rows. Content: (1) a hop query may be translated in either join order by either variant
+(lowering TraversalDirectionSelection vs. the selectivity balance): both are permutations of the Cypher result, hence of each other;
+(2) the count-store fast path (`count_fast_path_preserves`); (3) on S1 the statements are identical. That the REAL translator's two outputs
+are these statements is checked on every run (driver outcome `frag-tie`). -/
+theorem opt_equiv (fo fu : C01.S2.Query → Bool) : C02_full (trVariant fo true) (trVariant fu false) := by
   intro km g q so su po pu hok ho hu to tu hto htu
-  rcases trOpt_cases km q so su po pu ho hu with ⟨_, hs, hp⟩ | ⟨ks, w, _, hw, hso, hsu, hpo, hpu⟩
+  rcases trVariant_cases fo fu km q so su po pu ho hu with ⟨_, hs, hp⟩ | ⟨s, hq, hso, hsu, hpo, hpu⟩ | ⟨ks, w, _, hw, hso, hsu, hpo, hpu⟩
   · subst hs hp
     rw [hto] at htu; cases htu
     exact List.Perm.refl _
+  · subst hpo hpu
+    obtain ⟨r1, n1, rows1, hr1, hb1, hp1⟩ := C01.Proofs.s2_sound km g hok s (fo s) so hso
+    obtain ⟨r2, n2, rows2, hr2, hb2, hp2⟩ := C01.Proofs.s2_sound km g hok s (fu s) su hsu
+    rw [hr1] at hr2; cases hr2
+    have e1 : to = ⟨n1, rows1⟩ := by
+      rcases hb1 with h | ⟨u, h⟩
+      · rw [h] at hto; cases hto; rfl
+      · rw [h] at hto; cases hto
+    have e2 : tu = ⟨n2, rows2⟩ := by
+      rcases hb2 with h | ⟨u, h⟩
+      · rw [h] at htu; cases htu; rfl
+      · rw [h] at htu; cases htu
+    subst e1 e2
+    exact hp1.trans hp2.symm
   · subst hso hsu hpo hpu
     obtain ⟨wsem, hwok⟩ := countWhere_ok km g hok.inj ks w hw
     obtain ⟨h1, h2⟩ := count_fast_path_preserves km g w wsem hwok
@@ -377,6 +432,9 @@ theorem opt_equiv : C02_full trOpt trUnopt := by
       · rw [h] at htu; cases htu; rfl
       · rw [h] at htu; cases htu
     rw [e1, e2]
+
+/-- the instance for the model's own direction approximations -/
+theorem opt_equiv_default : C02_full trOpt trUnopt := opt_equiv C01.flipOpt C01.flipUnopt
 
 /-- the fragment is inhabited on both branches -/
 def exCountRet : Cy.Projection :=
